@@ -626,7 +626,7 @@ def op_c06_variants(args):
         make_variant.changed = False
         var = make_variant(code, r)
         # self-check: same symbolic reading (NESTED/NOFREE may differ by construction)
-        d = refs.sym_diff(sym0, refs.sym(var), flag_mask=refs.CO_NESTED | refs.CO_NOFREE)
+        d = refs.sym_diff(sym0, refs.sym(var), flag_mask=refs.CO_NESTED | refs.CO_NOFREE, opcode_unit_lines=False)
         if d:
             raise refs.HarnessError("R-ASM variant is not the same code: %r" % (d[:2],))
         if make_variant.changed:
@@ -723,13 +723,22 @@ def _run(code, filename):
     return out.getvalue()[:5000], (exc, glob), events, timed_out
 
 
-def _safe_repr(x):
+def _safe_repr(x, depth=0):
+    """repr that does not depend on addresses or on set iteration order"""
+    import re
     try:
+        if depth < 6:
+            if isinstance(x, (set, frozenset)):
+                return "%s{%s}" % (type(x).__name__, ", ".join(sorted(_safe_repr(i, depth + 1) for i in x)))
+            if type(x) in (list, tuple):
+                inner = ", ".join(_safe_repr(i, depth + 1) for i in x)
+                return ("[%s]" if type(x) is list else "(%s)") % inner
+            if type(x) is dict:
+                return "{%s}" % ", ".join("%s: %s" % (_safe_repr(k, depth + 1), _safe_repr(val, depth + 1)) for k, val in x.items())
         r = repr(x)
     except BaseException:  # noqa
         return "<unreprable>"
     # addresses differ between runs
-    import re
     return re.sub(r" at 0x[0-9a-f]+", " at 0x?", r)
 
 
